@@ -61,9 +61,10 @@ structure StoreShape (s s' : St) (ev : List Event) (vtp : Page) : Prop where
   cache : ∀ x ∈ s'.net.cache, x ∈ s.net.cache ∨ x.raw = vtp.raw
   pages : ∀ x ∈ ttxPages ev, x = (vtp.pgno, vtp.subno)
 
-theorem cachePut_mem (c : List Page) (pt : Nat) (p : Page) :
-    ∀ c', cachePut c pt p = some c' → ∀ x ∈ c', x ∈ c ∨ x.raw = p.raw := by
-  unfold cachePut
+/-- both source shapes of `_vbi_cache_put_page` (`fix`): nothing enters the chain but the page stored -/
+theorem cachePutF_mem (fix : Bool) (c : List Page) (pt : Nat) (p : Page) :
+    ∀ c', cachePutF fix c pt p = some c' → ∀ x ∈ c', x ∈ c ∨ x.raw = p.raw := by
+  unfold cachePutF
   split
   · intro c' h; cases h
   · generalize putKey pt p.pgno p.subno = k
@@ -80,7 +81,14 @@ theorem cachePut_mem (c : List Page) (pt : Nat) (p : Page) :
       | some r =>
         obtain ⟨old, c1⟩ := r
         rw [hf] at hx
-        exact (cacheFind_sub _ _ _ _ _ _ hf).2 x (List.mem_of_mem_erase hx)
+        simp only at hx
+        split at hx
+        · exact (cacheFind_sub _ _ _ _ _ _ hf).2 x (List.mem_of_mem_erase (List.mem_filter.1 hx).1)
+        · exact (cacheFind_sub _ _ _ _ _ _ hf).2 x (List.mem_of_mem_erase hx)
+
+theorem cachePut_mem (c : List Page) (pt : Nat) (p : Page) :
+    ∀ c', cachePut c pt p = some c' → ∀ x ∈ c', x ∈ c ∨ x.raw = p.raw :=
+  cachePutF_mem _ c pt p
 
 theorem put_cache (n : Net) (p : Page) : ∀ x ∈ (n.put p).cache, x ∈ n.cache ∨ x.raw = p.raw := by
   unfold Net.put
